@@ -125,6 +125,10 @@ def negotiate(chk, suite, limit, sets=None, behs=None):
             status = {'version': {'name': ver_name}, 'description': 'x'}
         else:
             status = {'version': {'name': ver_name, 'protocol': beh[1]}, 'description': {'text': 'x'}}
+            if rng.random() < 0.25:
+                # the version object gives the protocol number only (the name is informational and may be absent)
+                del status['version']['name']
+                ver_name = None
             if rng.random() < 0.12:
                 # a long message of the day (within the 32767-character limit of a protocol string, far beyond it in bytes)
                 status['description'] = {'text': rng.choice(['\u4e16\u754c' * 5600, 'x' * 32000, '\U0001f600' * 7000])}
@@ -173,7 +177,7 @@ def negotiate(chk, suite, limit, sets=None, behs=None):
                 if raised:
                     e = raised[0]
                     if isinstance(e, VersionMismatch):
-                        o['outcome'] = [1, e.server_protocol, 'supported, but not allowed' in str(e), 'not supported' in str(e), str(e.server_protocol) in str(e), e.server_version, ver_name, ver_name in str(e)]
+                        o['outcome'] = [1, e.server_protocol, 'supported, but not allowed' in str(e), 'not supported' in str(e), str(e.server_protocol) in str(e), e.server_version, ver_name, ver_name is None or ver_name in str(e)]
                     elif isinstance(e, IOError) and 'Invalid server status' in str(e):
                         o['outcome'] = [2]
                     else:
